@@ -132,6 +132,11 @@ class RoundTrip(UperBase):
         seeds = [(n, rng.next() % 10**9) for n in self.names for _ in range(k)]
         vals = uperlib.gen_values(seeds, "valid", 6, self.h)
         reqs = [f"uper rt {n} {ty} {val}" for n, ty, val, _ in vals]
+        # values of the Rust type that the constraint forbids (one violation each): the encoder should
+        # refuse them (C06); the round trip must hold for whatever it accepts
+        k2 = 6 if tier == "quick" else 30
+        seeds2 = [(n, rng.next() % 10**9) for n in self.names for _ in range(k2)]
+        reqs += [f"uper rt {n} {ty} {val}" for n, ty, val, _ in uperlib.gen_values(seeds2, "violate", 6, self.h)]
         # several messages in one writer
         m = 2000 if tier == "quick" else 20000
         for _ in range(m):
@@ -454,6 +459,36 @@ class Conformance(UperBase):
         if any(int_semi(nd) for nd in nodes):
             return "uper.int_semi"
         return None
+
+
+class ExtForms(RoundTrip):
+    """C06, second sentence: a value outside the root of an EXTENSIBLE constraint is encoded in the
+    extension form and still round-trips — the round-trip requests of the types that have an extensible
+    node (INTEGER, ENUMERATED, CHOICE, sizes), values drawn with out-of-root choices"""
+    name = "uper-extrt"
+
+    @staticmethod
+    def extensible(node):
+        h = node[0]
+        if h in ("int", "enum", "choice", "oct", "bits", "seqof"):
+            return len(node) > 3 and node[3] == "1"
+        if h == "str":
+            return len(node) > 4 and node[4] == "1"
+        return False
+
+    def gen(self, rng, tier):
+        k = 30 if tier == "quick" else 200
+        names = [n for n in self.names if any(self.extensible(x) for x in ty_nodes(self.desc[n]))]
+        seeds = [(n, rng.next() % 10**9) for n in names for _ in range(k)]
+        vals = uperlib.gen_values(seeds, "valid", 6, self.h)
+        reqs = [f"uper rt {n} {ty} {val}" for n, ty, val, _ in vals]
+        # every value of the extensible enumerations (each addition index once)
+        for n in names:
+            node = ty_nodes(self.desc[n])[0]
+            if node[0] == "enum":
+                for i in range(int(node[2])):
+                    reqs.append(f"uper rt {n} {self.desc[n]} (enum {i})")
+        return reqs
 
 
 # ------------------------------------------------------------------------------------------- C05
